@@ -45,11 +45,16 @@ pub fn serialize_salted(events: &[Value], variant: usize, salt: usize) -> Doc {
     let mut cfg = ReaderCfg::default_cfg();
     let mut tokens = Vec::new();
     let mut n = 0usize;
+    if salt == 3 {
+        // the references used as content are declared, so the document stays well-formed (inserting a DOCTYPE is itself one of the rewrites)
+        out.extend_from_slice(b"<!DOCTYPE r [<!ENTITY co \"ACME\"><!ENTITY nbsp \"&#160;\">]>");
+    }
     let mut tok = |p: &str, tokens: &mut Vec<String>| {
         n += 1;
         let t = match salt {
             0 => format!("{}{:03}", p, n),
             1 => format!("other {} &lt;{}&gt; value", p, n * 7),
+            3 => if p == "c" { "&co;".to_string() } else { ["&co;", "&nbsp;", "AT&T"][n % 3].to_string() },
             _ => "  ".to_string(),
         };
         tokens.push(t.clone());
